@@ -11,11 +11,11 @@ META = {
 
 def run(c):
     c.tlc_mc("MCOrTransport", "MCOrTransport.cfg")
-    c.tlc_mc("MCOrTransport", "MCOrTransport_optleft.cfg")
     c.tlc_mc("MCOrTransport", "MCOrTransport_fair.cfg")
     c.tlc_mc("MCOrTransport", "MCOrTransport_starve.cfg", expect="BoundedWait")
     c.tlc_mc("MCOrTransport", "MCOrTransport_canary_err.cfg", expect="RouteFirst")
     if not c.quick:
+        c.tlc_mc("MCOrTransport", "MCOrTransport_optleft.cfg")
         c.tlc_mc("MCOrTransport", "MCOrTransport_optright.cfg")
         c.tlc_mc("MCOrTransport", "MCOrTransport_canary_owner.cfg", expect="OwnerStable")
         c.tlc_mc("MCOrTransport", "MCOrTransport_canary_tag.cfg", expect="NoLossNoDup")
